@@ -14,16 +14,23 @@
 (* Sizes are the real byte counts; work type and pid flag are not logged   *)
 (* by the observer and are carried as constants of the record.             *)
 (* Traces of several units are concatenated, separated by "reset" events.  *)
+(* Crash experiments (C04) add a "crash" event after the last event of     *)
+(* every process; they are validated with CheckSteps = FALSE (a restart    *)
+(* may legitimately move a unit from Pending to Failed and back, see the   *)
+(* finding C04:live-runner-marked-failed), everything else stays checked.  *)
 (***************************************************************************)
 EXTENDS WorkUnit, Json
 
-CONSTANT UnitTraceFile
+CONSTANTS UnitTraceFile,
+          CheckSteps      \* TRUE: every rewrite must respect StageMonotone/SucceededIsFinal/SizeMonotone (C13: no crashes)
 
 UTrace == ndJsonDeserialize(UnitTraceFile)
 
 VARIABLES ul,     \* next event
-          cur,    \* the stored record of the current unit
-          known   \* FALSE until the first rewrite of the unit has been seen
+          cur,    \* the stored record of the current unit: record, or Empty after a truncate
+          known,  \* FALSE until the first rewrite of the unit has been seen
+          pend,   \* the record applied by the process inside the update, not yet written (NoMem: none)
+          pa      \* the process (actor number) that owns pend
 
 DaemonUfsLocs == {"sb_u_wait", "sb_u_starting", "sb_u_launch", "sb_u_pid", "x_u_clear", "cn_u_cancel", "rl_u_cancel",
                   "sc_u_failload", "sc_u_pendfail"}
@@ -34,22 +41,45 @@ StName(n) == CASE n = 0 -> "P" [] n = 1 -> "R" [] n = 2 -> "S" [] n = 3 -> "F" [
 UE == UTrace[ul]
 Old == Rec(StName(UE.ost), UE.osz, "cmd", FALSE)
 New == Rec(StName(UE.nst), UE.nsz, "cmd", FALSE)
+Has(e) == ul <= Len(UTrace) /\ UE.ev = e
+uvars == <<ul, cur, known, pend, pa>>
 
-UInit == Init /\ ul = 1 /\ cur = Fresh("cmd") /\ known = FALSE
+UInit == Init /\ ul = 1 /\ cur = Fresh("cmd") /\ known = FALSE /\ pend = NoMem /\ pa = 0
 
-UReset == /\ ul <= Len(UTrace) /\ UE.ev = "reset"
-          /\ ul' = ul + 1 /\ cur' = Fresh("cmd") /\ known' = FALSE /\ UNCHANGED vars
+UReset == /\ Has("reset")
+          /\ ul' = ul + 1 /\ cur' = Fresh("cmd") /\ known' = FALSE /\ pend' = NoMem /\ pa' = 0 /\ UNCHANGED vars
 
+\* UFS_Read + UFS_Apply of WorkUnit: what was read is what is stored; the update is one of WorkUnit's
 UApply ==
-  /\ ul <= Len(UTrace) /\ UE.ev = "apply"
-  /\ UE.z \/ ~known \/ (Old.st = cur.st /\ Old.sz = cur.sz)              \* read = last write
-  /\ \E l \in (IF UE.who = "r" THEN RunnerUfsLocs ELSE DaemonUfsLocs), ch \in {"ok", "fail"} :
+  /\ Has("apply") /\ pend = NoMem
+  /\ IF UE.z THEN ~known \/ cur = Empty                                  \* nothing to read: the file is empty
+            ELSE ~known \/ (IsRec(cur) /\ Old.st = cur.st /\ Old.sz = cur.sz)  \* read = last write
+  /\ \E l \in (IF UE.who = "r" THEN RunnerUfsLocs
+                ELSE IF UE.who = "i" THEN RunnerUfsLocs \cup DaemonUfsLocs   \* remote mirror / in-process unit: the daemon drives the state itself
+                ELSE DaemonUfsLocs), ch \in {"ok", "fail"} :
         LET n == ApplyUpd(Old, UpdAt(l, UE.nsz, ch)) IN n.st = New.st /\ n.sz = New.sz
-  /\ UE.z \/ ApplyBad(Old, New) = {}                                      \* StageMonotone, SucceededIsFinal, SizeMonotone
-  /\ cur' = New /\ known' = TRUE /\ ul' = ul + 1 /\ UNCHANGED vars
+  /\ (CheckSteps /\ ~UE.z) => ApplyBad(Old, New) = {}                    \* StageMonotone, SucceededIsFinal, SizeMonotone
+  /\ pend' = New /\ pa' = UE.a
+  /\ ul' = ul + 1 /\ UNCHANGED <<cur, known, vars>>
 
-UNext == UReset \/ UApply
-USpec == UInit /\ [][UNext]_<<vars, ul, cur, known>>
+\* UFS_Trunc
+UTrunc == /\ Has("trunc") /\ pend # NoMem /\ pa = UE.a
+          /\ cur' = Empty /\ known' = TRUE
+          /\ ul' = ul + 1 /\ UNCHANGED <<pend, pa, vars>>
+
+\* UFS_Write
+UWrite == /\ Has("write") /\ pend # NoMem /\ pa = UE.a /\ cur = Empty
+          /\ cur' = pend /\ known' = TRUE /\ pend' = NoMem /\ pa' = 0
+          /\ ul' = ul + 1 /\ UNCHANGED vars
+
+\* CrashDaemon / CrashRunner: the process is gone; an update it had applied but not written is lost, a truncated
+\* file stays truncated
+UCrash == /\ Has("crash")
+          /\ IF pa = UE.a THEN pend' = NoMem /\ pa' = 0 ELSE UNCHANGED <<pend, pa>>
+          /\ ul' = ul + 1 /\ UNCHANGED <<cur, known, vars>>
+
+UNext == UReset \/ UApply \/ UTrunc \/ UWrite \/ UCrash
+USpec == UInit /\ [][UNext]_<<vars, uvars>>
 
 UnitTraceAccepted == TLCGet("stats").diameter - 1 = Len(UTrace)
 =============================================================================
